@@ -11,6 +11,7 @@ from ..runner import Violation, hyp_search, sha
 
 ID = "C15"
 LEVEL = "exploration"
+DEADLINE = {"quick": 900}  # a hang inside C code (regular expressions) is only seen when this runs out
 RULE = (
     "Base programs on which each of the 8 options changes the output (fixed call-heavy programs and generated ones) "
     "with 0-5 generated directive lines: drawn subsets of options in drawn spellings ('-'/'_', 'no-'/'no_', blanks "
